@@ -20,15 +20,39 @@ BOUNDS = {'quick': 'L(1,2), L(1,3), L(2,2); 28 cone structures x n in {1,2} x p 
 TECHNIQUE = 'bounded exhaustive enumeration of problem data and solver configurations; Farkas certificate re-verified by an independent reference'
 
 
+
+def _run_opsolve_hist(case):
+    """solve / edit / solve histories of one op whose status changes on the way (checks/opsolve_hist.py)"""
+    from mc import cvx
+    from checks import opsolve_hist as H
+    ns, nh, viol, outcomes = H.run(PROPERTY, case['depth'], case['variant'], case['fmt'], case['solver'])
+    return {'n': ns, 'nontrivial': ns - nh, 'viol': viol, 'outcomes': {'opsolve-history:' + k: v for k, v in outcomes.items()},
+            'states': ns, 'transitions': ns, 'traces': nh}
+
+
+def _cases_opsolve_hist(tier, seed):
+    for variant in ((seed % 4, (seed + 1) % 4) if tier == 'quick' else (0, 1, 2, 3)):
+        for fmt in ('dense', 'sparse'):
+            for solver in ('default', 'glpk'):
+                yield {'part': 'opsolve-hist', 'variant': variant, 'fmt': fmt, 'solver': solver, 'depth': 5 if tier == 'quick' else 6}
+
 def cases(tier, seed, flavour):
     for c in F.cases(tier, seed, flavour):
         c['tier'] = tier
         yield c
+    # the infeasibility statuses through op.solve(): x / multipliers None as documented, also when an earlier solve of
+    # the same op had set them
+    for c in _cases_opsolve_hist(tier, seed):
+        yield c
 
 
 def run(case):
+    if case.get('part') == 'opsolve-hist':
+        from cvxopt import solvers
+        solvers.options.clear()
+        return _run_opsolve_hist(case)
     return F.run(case, PROPERTY, {'primal infeasible', 'dual infeasible'}, case.get('tier', 'quick'))
 
 
 def crash_key(case):
-    return case['fam']
+    return case.get('fam') or case.get('part')
